@@ -28,6 +28,11 @@ var engineOutcomes = []string{"success", "success", "success", "success", "succe
 type engineOpts struct {
 	cancelAfterMs int  // >= 0: cancel the caller's context after that many ms
 	hang          bool // allow never-finishing steps
+	// warmInput != nil: the prepared workflow is executed once with this input BEFORE the recorded run (same behaviours);
+	// the logs are cleared once that run has settled.  The recorded run is then a second run of a prepared workflow: what
+	// its steps see has to be computed from THIS run's input and producers, not from the earlier run's.
+	warmInput map[string]any
+	warm      bool // runEngineCase: derive warmInput from the generated workflow's input fields
 }
 
 func genBehaviours(r *rng, wf *AWf, o engineOpts) map[string]Behaviour {
@@ -122,6 +127,26 @@ func runEngineCase(r *rng, caseID string, g genOpts, o engineOpts) map[string]an
 			input["z"] = int64(r.intn(3))
 		}
 	}
+	if o.warm {
+		wi := map[string]any{"name": fmt.Sprintf("first-run-%d", r.intn(100))}
+		for _, fl := range wf.InputFields {
+			switch fl.Name {
+			case "flag":
+				wi["flag"] = r.chance(1, 2)
+			case "n":
+				wi["n"] = int64(50 + r.intn(50))
+			case "opt":
+				if r.chance(1, 2) {
+					wi["opt"] = "first"
+				}
+			case "lst":
+				wi["lst"] = []any{"w1", "w2", "w3", "w4", "w5"}[:r.intn(6)]
+			case "z":
+				wi["z"] = int64(r.intn(3))
+			}
+		}
+		o.warmInput = wi
+	}
 	return execEngineCase(caseID, wf, text, beh, input, o)
 }
 
@@ -158,6 +183,46 @@ func execEngineCaseTimeout(caseID string, wf *AWf, text string, beh map[string]B
 		out["skip"] = "prepare: " + err.Error()
 		out["goroutine_delta"] = goroutineDelta(base)
 		return out
+	}
+	if o.warmInput != nil {
+		warm := map[string]any{"input": encVal(o.warmInput)}
+		g := guarded(25*time.Second, func() {
+			wctx, wcancel := context.WithTimeout(context.Background(), 20*time.Second)
+			defer wcancel()
+			id, _, werr := prepared.Execute(wctx, o.warmInput)
+			warm["output_id"] = id
+			if werr != nil {
+				warm["err"] = werr.Error()
+			}
+		})
+		if g.Panic != "" || g.Timeout {
+			out["skip"] = "the first run of the prepared workflow panicked or did not return: " + g.Panic
+			return out
+		}
+		// settled = every plugin of the first run closed and nothing logged for 100 ms
+		deadline := time.Now().Add(5 * time.Second)
+		last, lastAt := int64(-1), time.Now()
+		for time.Now().Before(deadline) {
+			s.mu.Lock()
+			cur := s.seq
+			s.mu.Unlock()
+			if cur != last {
+				last, lastAt = cur, time.Now()
+			}
+			if s.balance() == 0 && time.Since(lastAt) > 100*time.Millisecond {
+				break
+			}
+			time.Sleep(5 * time.Millisecond)
+		}
+		warm["events"] = last
+		out["warm"] = warm
+		s.mu.Lock()
+		s.log = nil
+		s.maxRunning = 0
+		s.mu.Unlock()
+		rec.mu.Lock()
+		rec.ev = nil
+		rec.mu.Unlock()
 	}
 	ctx, cancel := context.WithCancel(context.Background())
 	defer cancel()
@@ -227,13 +292,14 @@ func execEngineCaseTimeout(caseID string, wf *AWf, text string, beh map[string]B
 
 func cmdEngine(args []string) int {
 	var cancelMode string
-	var hang, evalFail, allTags, multiRef bool
+	var hang, evalFail, allTags, multiRef, second bool
 	c, _ := parseCommon("engine", args, func(fs *flag.FlagSet) {
 		fs.StringVar(&cancelMode, "cancel", "none", "none|random: cancel the context at a random instant")
 		fs.BoolVar(&hang, "hang", false, "allow never-finishing steps")
 		fs.BoolVar(&evalFail, "evalfail", false, "generate expressions that may fail to evaluate at run time")
 		fs.BoolVar(&allTags, "tags", false, "every workflow uses the optional / one-of / or-disabled tags")
 		fs.BoolVar(&multiRef, "multiref", false, "expressions with several step references / several optional members on one source")
+		fs.BoolVar(&second, "second", false, "the recorded run is the SECOND run of the prepared workflow (first run: another input); deploy-time expressions over the input")
 		fs.IntVar(&slowLogMs, "slowlog", 0, "log step outputs (config.LoggedOutputConfigs) through a log sink that takes this many ms per such line")
 	})
 	w := openOut(c.out)
@@ -255,6 +321,10 @@ func cmdEngine(args []string) int {
 			g.enabled = cr.chance(2, 3)
 		}
 		o := engineOpts{cancelAfterMs: -1, hang: hang}
+		if second {
+			g.deployExpr = true
+			o.warm = true
+		}
 		if cancelMode == "random" && i%10 == 9 {
 			// targeted shape: several steps are executing when the caller cancels; their plugins get the cancel signal and
 			// carry on; their closure timeouts are small (one of them the valid minimum 0), so the run has to be over after
